@@ -278,7 +278,12 @@ func (h *realHeap) apply(op c07Op) (ret *obiseq.BioSequence, problem string) {
 			h.objs[op.O].Qualities()[op.I-1] = byte(op.QX)
 		}
 	case "recycle":
-		h.objs[op.O].Recycle()
+		obj := h.objs[op.O]
+		obj.Recycle()
+		if op.O%2 == 0 {
+			// a caller that recycles defensively calls Recycle again on the same object: nothing is left to give back
+			obj.Recycle()
+		}
 		h.objs[op.O] = nil
 	case "join":
 		ret = h.objs[op.O].Join(h.objs[op.P], op.Inplace == 1)
